@@ -75,6 +75,15 @@ def run(chk):
             ctype = ctype.replace('multipart/form-data', rng.choice(['Multipart/Form-Data', 'MULTIPART/FORM-DATA']))
         if rng.random() < 0.15:
             ctype += '; charset=utf-8'
+        if len(specs) % 9 == 4:
+            # an upload that breaks off inside a part-header block (client abort) is served in between; it is not judged here,
+            # the well-formed forms after it are
+            hb = body.find(b'\r\n\r\n')
+            if hb > 0:
+                cutpos = hb + rng.choice([1, 2, 3])
+                specs.append({'buf': max(buf, cutpos), 'body': body[:cutpos], 'ctype': ctype, 'what': 'forms+files', 'chunked': False,
+                              'seed': rng.randrange(10 ** 9), 'in_thread': False})
+                metas.append(None)
         specs.append({'buf': buf, 'body': body, 'ctype': ctype, 'what': 'forms+files', 'chunked': rng.random() < 0.4, 'seed': rng.randrange(10 ** 9),
                       'in_thread': rng.random() < 0.2})
         metas.append((b, fs, body, buf, ctype))
@@ -95,7 +104,10 @@ def run(chk):
         specs.append({'buf': buf, 'body': body, 'ctype': ctype, 'what': 'forms+files', 'chunked': rng.random() < 0.4, 'seed': rng.randrange(10 ** 9),
                       'in_thread': False})
         metas.append((b, fs, body, buf, ctype))
-    for (b, fs, body, buf, ctype), res in zip(metas, fl.post_batch(specs, time_limit=10.0)):
+    for meta, res in zip(metas, fl.post_batch(specs, time_limit=10.0)):
+        if meta is None:
+            continue
+        b, fs, body, buf, ctype = meta
         t = fl.to_trace(body, buf, 'roundtrip', fs, res, full=not res['hang'])
         by_b.setdefault(b, []).append((t, {'ctype': ctype, 'buf': buf, 'fields': fs}))
         chk.count(1, ('rt', b, body, buf))
